@@ -209,6 +209,43 @@ func c10GenCases(r *rand.Rand, fx *c10Fixture, t *c10Target, base []byte, plan c
 			}
 		}
 	}
+	// the addresses named by the damaged journal record / index entry
+	if t.Kind == "journalidx" {
+		full := map[[16]byte]string{}
+		for _, ch := range fx.Chunks {
+			var k [16]byte
+			copy(k[:], ch.h[:16])
+			full[k] = ch.Addr
+		}
+		for i := range out {
+			rg := lay.regionAt(out[i].Off)
+			if strings.HasPrefix(rg.Name, "lookup-") {
+				start := rg.Off
+				switch rg.Name {
+				case "lookup-addr":
+					start = rg.Off - 1
+				case "lookup-offset":
+					start = rg.Off - 17
+				case "lookup-length":
+					start = rg.Off - 25
+				}
+				var k [16]byte
+				copy(k[:], base[start+1:start+17])
+				if a, ok := full[k]; ok {
+					out[i].Focus = append(out[i].Focus, a)
+				}
+			}
+		}
+	}
+	if t.Kind == "journal" {
+		for i := range out {
+			for _, rec := range lay.Records {
+				if out[i].Off >= rec.Off && out[i].Off < rec.Off+rec.Len && rec.Kind == "chunk" {
+					out[i].Focus = append(out[i].Focus, rec.Addr.String())
+				}
+			}
+		}
+	}
 	// journal files: what the documented recovery rules allow for this damage
 	if t.Kind == "journal" {
 		stateRec := c10StateRecords(fx, lay)
@@ -481,8 +518,8 @@ func c10(c *rig.Ctx) {
 	plans = append(plans, tgtPlan{f6, kindIs("journalidx"), c10Plan{singles: S(25, 200), bursts: S(10, 100), truncs: S(20, 200), fieldInst: S(4, 30)}})
 	// 7. journal large enough for the writer to flush index metadata: reopen is served from journal.idx
 	f7 := must(c10FixtureJournal("journal-indexed", mk("journal-indexed"), r, []int{16500, 6, 5}, 3))
-	plans = append(plans, tgtPlan{f7, kindIs("journal"), c10Plan{singles: S(40, 800), bursts: S(15, 300), truncs: S(40, 600), fieldInst: S(6, 100)}})
-	plans = append(plans, tgtPlan{f7, kindIs("journalidx"), c10Plan{singles: S(60, 1200), bursts: S(20, 400), truncs: S(40, 600), fieldInst: S(10, 150)}})
+	plans = append(plans, tgtPlan{f7, kindIs("journal"), c10Plan{singles: S(10, 400), bursts: S(4, 150), truncs: S(10, 300), fieldInst: S(3, 60)}})
+	plans = append(plans, tgtPlan{f7, kindIs("journalidx"), c10Plan{singles: S(12, 500), bursts: S(5, 200), truncs: S(10, 300), fieldInst: S(3, 60)}})
 
 	// cases: first the unmutated stores (the oracle must call them model-equal), then the faults
 	nextID := 0
@@ -614,6 +651,7 @@ func c10(c *rig.Ctx) {
 	missing := 0
 	rollbacks := 0
 	var maxAlloc int64
+	msByFixture := map[string]int64{}
 	for i := range cases {
 		cs := &cases[i]
 		if _, isP := pristine[cs.ID]; isP {
@@ -658,6 +696,7 @@ func c10(c *rig.Ctx) {
 		if res.AllocMB > maxAlloc {
 			maxAlloc = res.AllocMB
 		}
+		msByFixture[cs.Fixture] += res.Millis
 		last := -1
 		for _, fx := range fixtures {
 			if fx.ID == cs.Fixture {
@@ -692,6 +731,9 @@ func c10(c *rig.Ctx) {
 	}
 	c.Count("c10.journal_silent_rollback_to_previous_root_allowed", rollbacks)
 	c.Count("c10.child_processes", rn.childRuns)
+	for k, v := range msByFixture {
+		c.Count("c10.cpu_ms."+k, int(v))
+	}
 	c.Count("c10.max_alloc_mb_single_case", int(maxAlloc))
 	for _, key := range order {
 		a := viols[key]
